@@ -436,19 +436,22 @@ class ndarray:
     def __new__(cls, *a, **k):
         raise ModelGap("ndarray.__new__")
     @staticmethod
-    def _make(cells, dt, klass=None, buf=None, idx=None, nd=1):
+    def _make(cells, dt, klass=None, buf=None, idx=None, nd=1, src=None):
         a = object.__new__(klass or ndarray)
         a._own = buf is None          # flags.owndata: this array allocated its buffer (views and .view(cls) do not)
         a._buf = buf if buf is not None else Buffer(list(cells))
         a._idx = idx if idx is not None else list(range(len(a._buf.cells)))
         a.dtype = _as_dtype(dt)
         if nd != 1: a._nd = nd
+        fin = getattr(type(a), "__array_finalize__", None)
+        if fin is not None:
+            fin(a, src)               # NumPy's subclass hook: obj is the array this one was made from (view, slice, copy, ufunc), else None
         return a
     def _cells(self):
         b = self._buf.cells
         return [b[i] for i in self._idx]
     def _like(self, cells, dt=None, klass=None):
-        return ndarray._make(cells, dt or self.dtype, klass or type(self))
+        return ndarray._make(cells, dt or self.dtype, klass or type(self), src=self)
     # --- basic attributes
     @property
     def flags(self):
@@ -487,9 +490,9 @@ class ndarray:
     # --- views / copies
     def view(self, klass=None):
         if isinstance(klass, (dtype, str)): raise ModelGap("view(dtype)")
-        return ndarray._make(None, self.dtype, klass or type(self), self._buf, self._idx, self._nd)
+        return ndarray._make(None, self.dtype, klass or type(self), self._buf, self._idx, self._nd, src=self)
     def copy(self, order="C"):
-        return ndarray._make(self._cells(), self.dtype, type(self), nd=self._nd)
+        return ndarray._make(self._cells(), self.dtype, type(self), nd=self._nd, src=self)
     def astype(self, dt, copy=True):
         if isinstance(dt, str) and dt.lstrip("<") == "U0" and self.dtype.kind == "T":
             raise TypeError("cannot cast dtype StringDType(na_object='') to <class 'numpy.dtypes.StrDType'>.")
@@ -503,7 +506,7 @@ class ndarray:
             return ndarray._make(cells, dt, type(self))
         if dt.kind == "U" and not dt.width:
             raise ModelGap("astype(str) width inference")
-        return ndarray._make([cast_cell(c, self.dtype, dt) for c in self._cells()], dt, type(self))
+        return ndarray._make([cast_cell(c, self.dtype, dt) for c in self._cells()], dt, type(self), src=self)
     def repeat(self, n, axis=None):
         return repeat(self, n)
     def tolist(self):
@@ -565,9 +568,9 @@ class ndarray:
         if how == "scalar":
             return box(self._buf.cells[self._idx[p]], self.dtype)
         if how == "view":
-            return ndarray._make(None, self.dtype, type(self), self._buf, [self._idx[i] for i in p])
+            return ndarray._make(None, self.dtype, type(self), self._buf, [self._idx[i] for i in p], src=self)
         cs = self._buf.cells
-        r = ndarray._make([cs[self._idx[i]] for i in p], self.dtype, type(self))
+        r = ndarray._make([cs[self._idx[i]] for i in p], self.dtype, type(self), src=self)
         r._own = type(self) is ndarray     # measured: fancy / mask indexing of a subclass gives a view of a fresh base array
         return r
     def __setitem__(self, key, value):
